@@ -22,6 +22,8 @@ SPEC = {
         "(the byte parser of layout.rs is exercised through it, not modelled)",
         "the hand-written Gallina model coq/Model/Layout.v, coq/Model/Gsub.v, coq/Model/FeatureVariations.v (tied to the "
         "Rust by the correspondence runs); for feature variations additionally the reader model coq/Model/Reader.v (C01)",
+        "ocaml/c04/drv.ml: split_font / plain_of_shape, the OCaml image of coq/Model/FontShape.v (a Font::shape case is rewritten into "
+        "the gsub::apply case with the tables the font carries); harness/src/bin/c04.rs: synthetic font (cmap, head, maxp, hhea, hmtx stubs)",
         "ocaml/c04/drv.ml: the feature-variations oracle (decodes the FeatureVariations bytes with OCaml integers, "
         "recomputes the first matching record and substitutes the abstract feature list before asking the model for glyphs)",
     ],
@@ -48,6 +50,6 @@ SPEC = {
             "1 / unsupported versions / dangling, records sorted, reversed, unsorted, duplicated, naming unused and "
             "out-of-range feature indices, dangling alternate tables; bad major version, record count off by one, "
             "truncation; header minor 0/1/2, NULL and out-of-table featureVariationsOffset) and a tuple of 0-3 grid "
-            "values (or None); distinct = distinct input lines; class histogram = run kind (A, M or L<lookup "
-            "type>) [+fv:<oracle decision: none, null, subst0, substN, error, unreadable>] / result (changed, same, err, panic)",
+            "values (or None); half of the gsub::apply cases (Custom and Mask, with and without feature variations) additionally go through Font::shape on a synthetic font built from the case: GPOS absent / 1.0 with NULL lists / 1.0 with empty lists / unreadable, the case's GDEF in the font / absent / unreadable, kern absent / empty / unreadable, kerning flag, stray morx; the harness also calls gsub::apply directly on the same bytes; distinct = distinct input lines; class histogram = run kind (A, M or L<lookup "
+            "type>) [+fv:<oracle decision: none, null, subst0, substN, error, unreadable>] / result (changed, same, err, panic); Font::shape cases S:gpos<-+?>:gdef<-+?>/result[! = an error was returned]",
 }
